@@ -99,10 +99,11 @@ theorem op_keeps_session_clean {cfg : Config} (hs : cfg.Sound) (lt : Nat → Nat
 /-- **C11 across versions, general form**: the history may consist of operations on ANY earlier versions of
     the definitions (other pools: bodies, signatures, dependencies, nested functions … all may differ); what
     `d.check()` and `compile d` return for the current version is what they return in a fresh session.  This
-    holds because `State` carries nothing that was derived from the text of a definition past `reset()`; that
-    `State` lists everything that survives is re-checked by the inventories below
-    (`session_globals_classified`, `counters_classified`, `reset_clears_all_caches`) and by the differential run
-    over edited files. -/
+    holds because `State` carries nothing that was derived from the text of a definition past `reset()`.  That
+    `State` lists everything that survives is an ASSUMPTION about the code: the inventories below
+    (`session_globals_classified`, `counters_classified`, `reset_clears_all_caches`) are syntactic tripwires for it,
+    and the differential run over edited files searches for counter-examples (e.g. `DEF_STORE.sources`, keyed by
+    file name, is outside the model). -/
 theorem compile_version_history_free_of_sound {cfg : Config} (hs : cfg.Sound) {lt : Nat → Nat → Bool}
     (hlt : cfg.checkRestartsTmp = true ∨ ShiftInv lt) : (vsys cfg lt).HistoryFree := by
   intro h P d
@@ -301,14 +302,53 @@ theorem reset_clears_all_caches :
     Gen.engineAttrs.all (fun a => a == "additional_extensions" || Gen.resetClears.contains a) = true := by
   decide
 
-/-- module-level mutable containers that are written from inside a function, and functions memoised with
-    `functools.cache` / `lru_cache`, anywhere in the package: state that lives outside the `CompilationEngine`
-    and survives `reset()`.  Exactly the two classified here exist: `builtin_defs()` (the builtin definition
-    table, built once, independent of user code) and `qubit_ty()` (a constant).  A NEW one — e.g. a cache of
-    parsed sources keyed by file and line — breaks this theorem and with it the premise of
-    `compile_version_history_free` that `State` is all that survives. -/
-theorem session_globals_classified :
-    Gen.sessionGlobals = ["checker/core.py:@cache builtin_defs", "tys/qubit.py:@functools.cache qubit_ty"] := by
+/-- The SYNTACTIC inventory of session-global state that `c11_translate._session_globals` produces over the
+    packages `guppylang_internals` and `guppylang`, every entry with the reason why it cannot make the result of
+    compiling a definition depend on earlier operations (or where that is established instead).  The scanner
+    lists: module/class-level container literals and constructor calls mutated from a function; `functools.cache`
+    / `lru_cache` functions; the container attributes of module-level instances of package classes (`DEF_STORE`,
+    `ENGINE`), followed through nested instances; module-level `ContextVar`s; `global` rebinding; stores into
+    class attributes / monkey patches from inside functions; mutable default arguments.  It does NOT see
+    `setattr` / `__dict__`, function attributes, closures, instances made by factory functions, C-level caches
+    (`linecache`, `sys.modules`) or other packages (hugr) — those are left to the differential runs. -/
+def sessionGlobalsClassified : List (String × String) :=
+  [("checker/core.py:@cache builtin_defs",
+      "table of builtin definitions, built once, does not depend on user code"),
+   ("compiler/core.py:Hugr.add_node set in track_hugr_side_effects",
+      "monkey patch for the duration of one compile_inner; restored on every exit — not modelled; established by the " ++
+      "differential run only (a compile that fails mid-body followed by other lowerings: seeded change m1)"),
+   ("engine.py:DEF_STORE.frames", "keyed by DefId, fresh per definition object (defCtr); a re-executed file makes new ids"),
+   ("engine.py:DEF_STORE.impl_parents", "keyed by fresh DefId (see frames)"),
+   ("engine.py:DEF_STORE.impls",
+      "keyed by the fresh DefId of the type, then by method name; generated struct methods are registered again " ++
+      "by every get_checked — structs are not modelled, real-engine run only (seeded change m4)"),
+   ("engine.py:DEF_STORE.raw_defs", "keyed by fresh DefId; grows only (model: store), entries of old versions are unreachable"),
+   ("engine.py:DEF_STORE.sources.sources",
+      "keyed by FILE NAME, so text-derived and observable in rendered diagnostics; overwritten with the current " ++
+      "linecache text by every parse_py_func (SourceMap.add_file: latest registration wins, C29); not modelled — " ++
+      "the edited-file run compares rendered diagnostics (source snippets) of re-loaded ill-typed versions with a " ++
+      "fresh interpreter"),
+   ("engine.py:DEF_STORE.wasm_functions", "keyed by fresh DefId (see frames)"),
+   ("engine.py:ENGINE.additional_extensions", "user-registered extension list, deliberately kept (reset_clears_all_caches)"),
+   ("engine.py:ENGINE.checked", "reassigned by reset() (reset_clears_all_caches); model: checked"),
+   ("engine.py:ENGINE.compiled", "reassigned by reset()"),
+   ("engine.py:ENGINE.parsed", "reassigned by reset(); model: parsed"),
+   ("engine.py:ENGINE.parsing", "reassigned by reset() and emptied by _parse's finally; model: parsing"),
+   ("engine.py:ENGINE.to_check_worklist", "reassigned by reset(); model: the work list of checkLoop"),
+   ("engine.py:ENGINE.types_to_check_worklist", "reassigned by reset(); structs are not modelled"),
+   ("experimental.py:global EXPERIMENTAL_FEATURES_ENABLED",
+      "user setting, changed only by the user's explicit call / with-block (restored in __exit__), never by check or compile"),
+   ("tracing/builtins_mock.py:MockMeta.__name__ set in _mock_meta", "attribute of a class created by that very call"),
+   ("tracing/builtins_mock.py:MockMeta.__qualname__ set in _mock_meta", "attribute of a class created by that very call"),
+   ("tracing/state.py:_STATE ContextVar", "model: tracing; reset in set_tracing_state's finally (tracingRestored)"),
+   ("tys/qubit.py:@functools.cache qubit_ty", "a constant type")]
+
+/-- the regenerated inventory is exactly the classified table: a NEW entry (e.g. a cache of parsed sources keyed
+    by file and line, seeded change m6) — or the disappearance of one — breaks the build and starts the search.
+    This is a tripwire over what the scanner can see (see `sessionGlobalsClassified`), not a proof that nothing
+    else survives: the premise "`State` is all that survives" of `compile_version_history_free` rests on it, on
+    `counters_classified`, `reset_clears_all_caches` AND on the differential runs. -/
+theorem session_globals_classified : Gen.sessionGlobals = sessionGlobalsClassified.map (·.1) := by
   decide
 
 /-- nobody outside the checker reads `input_tys`, and nobody writes into a frame namespace -/
